@@ -4,7 +4,7 @@ from pyvc.contracts import Registry
 
 def build_registry() -> Registry:
     reg = Registry()
-    from . import c_icao, c_wmo, lemmas
-    for mod in (lemmas, c_icao, c_wmo):
+    from . import c_icao, c_wmo, c_data, lemmas
+    for mod in (lemmas, c_icao, c_wmo, c_data):
         mod.register(reg)
     return reg
